@@ -122,7 +122,11 @@ func c18Build(cs c18Case) c18File {
 		f.head, f.truth, f.needEnd = head, t, t.NeedEnd
 		f.tailLen = cs.Payload + 4 + 12
 	case "JPEG":
-		s := imggen.JPEGSpec{Progressive: cs.Variant == "progressive", Precision: 8, W: 10 + rng.Intn(9000), H: 10 + rng.Intn(9000), Comps: imggen.StdComps(3, 2, 2)}
+		ncomp := []int{3, 3, 1, 4}[int(cs.Seed>>11)%4] // colour, grey and four-component (CMYK / YCCK) frames
+		s := imggen.JPEGSpec{Progressive: strings.HasPrefix(cs.Variant, "progressive"), Precision: 8, W: 10 + rng.Intn(9000), H: 10 + rng.Intn(9000), Comps: imggen.StdComps(ncomp, 2, 2)}
+		if ncomp != 3 {
+			s.Comps = imggen.StdComps(ncomp, 1, 1)
+		}
 		if cs.Variant == "dnl" { // zero lines in the frame header: the height comes later in a DNL segment (T.81 B.2.5)
 			s.H = 0
 		}
@@ -343,7 +347,29 @@ func c18Check(cs c18Case) (kind, msg string, over int64) {
 			}
 		}
 	}
-	if cs.Schedule == "seekable" {
+	if cs.Seed&32 != 0 && cs.Payload <= 1<<20 {
+		// history: the very same file has been loaded completely before (what a loader remembers of a
+		// file it has seen must not change how far it reads the next time)
+		_ = loadWith(cs.Loader, f.source("all", cs.Seed))
+	}
+	if cs.Schedule == "bytes.Reader" || cs.Schedule == "bytes.Buffer" {
+		// the whole file in memory, handed over as the standard in-memory readers (they have Len(),
+		// Size(), WriteTo ...): what is pulled is what is gone from the reader afterwards
+		all := make([]byte, 0, int64(len(f.head))+f.tailLen)
+		all = append(all, f.head...)
+		for off := int64(len(f.head)); off < int64(len(f.head))+f.tailLen; off++ {
+			all = append(all, f.tailF(off))
+		}
+		if cs.Schedule == "bytes.Reader" {
+			br := bytes.NewReader(all)
+			res = loadWith(cs.Loader, br)
+			pulled = int64(len(all) - br.Len())
+		} else {
+			bb := bytes.NewBuffer(all)
+			res = loadWith(cs.Loader, bb)
+			pulled = int64(len(all) - bb.Len())
+		}
+	} else if cs.Schedule == "seekable" {
 		ss := &seekableSource{all: f.head, tailN: f.tailLen, tailF: f.tailF}
 		res = loadWith(cs.Loader, ss)
 		pulled = ss.pulled
@@ -387,7 +413,7 @@ func c18Cases(seed int64, thorough bool) []c18Case {
 	rng := core.NewRNG(seed, "C18")
 	payloads := []int64{0, 1, 4 << 10, 64 << 10, 1 << 20, 64 << 20}
 	iccSizes := []int{500, 100 << 10, 3 << 20}
-	scheds := []string{"all", "4096", "1", "random", "seekable"}
+	scheds := []string{"all", "4096", "1", "random", "seekable", "bytes.Reader", "bytes.Buffer"}
 	var out []c18Case
 	add := func(format, variant, placement string, icc int) {
 		for _, p := range payloads {
@@ -395,6 +421,9 @@ func c18Cases(seed int64, thorough bool) []c18Case {
 				for _, sc := range scheds {
 					if sc == "1" && icc > 200<<10 && !thorough && p != 1<<20 {
 						continue
+					}
+					if (sc == "bytes.Reader" || sc == "bytes.Buffer") && p != 1<<20 && p != 64<<10 {
+						continue // the in-memory readers take the 64 KiB and 1 MiB payloads
 					}
 					out = append(out, c18Case{format, variant, placement, icc, p, loader, sc, rng.U64()})
 				}
